@@ -319,6 +319,13 @@ class Scenario:
                 lst = rng.randint(0, nlist - 1) if nlist and rng.chance(1, 3) else None
                 gi = rng.randint(0, ngen - 1)
                 ops.append(('getHier', gi, o, rng.randint(0, 1), 'Forced' if rng.chance(1, 10) else None, lst))
+                if lst is not None and rng.chance(1, 2):
+                    # a plain request on the SAME generator after one that was handed the caller's list, then the list again
+                    if rng.chance(1, 2):
+                        ops.append(('getVerilog', gi, rng.choice(tops), rng.randint(0, 1), None))
+                    else:
+                        ops.append(('getHier', gi, rng.choice(tops), rng.randint(0, 1), None, None))
+                    ops.append(('getHier', rng.randint(0, ngen - 1), rng.choice(tops), rng.randint(0, 1), None, lst))
                 if o is not None and rng.chance(1, 3):
                     # explicit sub-object request followed by a default-object request on the SAME generator
                     if rng.chance(1, 2):
@@ -438,6 +445,7 @@ class Scenario:
                 obj = None if op[2] is None else g.objs[op[2]]
                 tgt = op[2] if op[2] is not None else gen_own[op[1]]
                 lst = None
+                lists_before = [list(x) for x in R.lists]
                 s0 = L.snapshot(g)
                 if api == 'getVerilog':
                     r = R.call(lambda: gen.getVerilog(obj, noInstanceNumber=bool(op[3]), forceName=op[4]))
@@ -458,6 +466,22 @@ class Scenario:
                                                [[g.norm_ids(n) for n in x] for x in R.lists], list(list_ref)))
                 s1 = L.snapshot(g)
                 res.count(('call', self.label, len(self.replay_ops)), hist={'api': api, 'outcome': r[0]})
+                # --- oracle 6: a caller's list is observable state: only a request HANDED that list may change it, and only by
+                #     appending the names of the structures it wrote
+                for li, (lo, was) in enumerate(zip(R.lists, lists_before)):
+                    if lo is lst:
+                        written = [c.split('(')[0].split('#')[0].split()[1] for c in (L.chunks(r[1]) if r[0] == 'ok' else [])
+                                   if c.startswith('module ')]
+                        res.count(('caller-list', self.label, len(self.replay_ops), li), hist={'caller_list': 'handed'})
+                        if list(lo[:len(was)]) != list(was) or (r[0] == 'ok' and list(lo[len(was):]) != written):
+                            self.fail(f'getVerilogForHierarchy(createdStructures=L{li}) left L{li} = {[g.norm_ids(n) for n in lo]}: expected the '
+                                      f'previous content plus the structures written by this request',
+                                      self.rp(via='caller list', list=li, before=[g.norm_ids(n) for n in was], after=[g.norm_ids(n) for n in lo],
+                                              written=[g.norm_ids(n) for n in written]))
+                    elif list(lo) != list(was):
+                        self.fail(f'{api} on generator {op[1]} without createdStructures changed the caller\'s list L{li} '
+                                  f'(handed to an EARLIER request): {[g.norm_ids(n) for n in was]} -> {[g.norm_ids(n) for n in lo]}',
+                                  self.rp(via='caller list', list=li, before=[g.norm_ids(n) for n in was], after=[g.norm_ids(n) for n in lo]))
                 if r[0] == 'err':
                     res.hist('real_exceptions', r[1].split(':')[0])
                 # --- oracle 1: the circuit is not altered
@@ -664,7 +688,7 @@ def values_of_root(g, d):
     for o in objs:
         for k, v in vars(o).items():
             if isinstance(v, (int, bool)) or (isinstance(v, list) and v and all(isinstance(x, int) for x in v)):
-                attrs.append((g.oid[id(o)], k, v if not isinstance(v, list) else list(v)))
+                attrs.append((g.oid[id(o)], k, type(v).__name__, v if not isinstance(v, list) else [(type(x).__name__, x) for x in v]))
         # parameter dictionaries: name -> value | (index of the object the Parameter refers to, its name)
         if hasattr(o, 'parameters'):
             import py4hw
